@@ -14,7 +14,7 @@ RULE = (
     "programs: every G-cache graph (1-2 inputs as Value/strong Var; derived Calc / "
     "TransientCalc / weak Var / Dist with 1-2 inputs incl. repeated and shared inputs) up "
     "to the tier's size, plus hand-written extras (seeded nodes, unnamed nodes, calc on a "
-    "dist, deep chains). Per program: BFS to closure over the op alphabet; a state is "
+    "dist, deep chains). Per program: BFS to closure over the op alphabet (incl. Node.clear_state() on single cached nodes for programs with <= 3 items and one extra); a state is "
     "(auto flag, per node (outdated,value), save slot, reference dirty bits); distinct "
     "outcome = (op kind, pattern of outdated flags after it, pattern of evaluated nodes)."
 )
@@ -61,6 +61,8 @@ EXTRAS = [
     # mutable input values: `v = x.value; v[...] = ...; x.value = v` assigns the same object back
     {"items": [{"kind": "value", "mutable": True}, {"kind": "calc", "inputs": [0]}, {"kind": "tcalc", "inputs": [1, 0]}]},
     {"items": [{"kind": "var", "mutable": True}, {"kind": "wvar", "inputs": [0]}, {"kind": "value"}, {"kind": "dist", "var": 1, "inputs": [2]}]},
+    # per-node clear_state() on a chain and a diamond (a flagged node in the middle of up-to-date ones)
+    {"items": [{"kind": "var"}, {"kind": "calc", "inputs": [0]}, {"kind": "calc", "inputs": [1]}, {"kind": "wvar", "inputs": [2, 0]}], "clear_ops": True},
     # update_on_init False
     {"items": [{"kind": "value"}, {"kind": "calc", "inputs": [0], "update_on_init": False}, {"kind": "calc", "inputs": [1, 1], "update_on_init": False}]},
 ]
@@ -195,6 +197,10 @@ class Machine:
             if self.items[i].get("mutable"):
                 out.append(("set_inplace", i, 0))
                 out.append(("set_inplace", i, 1))
+        if len(self.items) <= 3 or self.b.program.get("clear_ops"):
+            # Node.clear_state(): a single cached node forgets its value and reports outdated
+            for c in self.caching:
+                out.append(("clear", c))
         out.append(("auto", not s["auto"]))
         out.append(("update",))
         tnames = []
@@ -245,6 +251,9 @@ class Machine:
                 o.value_node.value = v
             else:
                 o.value = v
+        elif kind == "clear":
+            b.cache_node[op[1]].clear_state()
+            dirty_before[op[1]] = True  # it may (and must, to become up to date) be evaluated again
         elif kind == "auto":
             m.auto_update = op[1]
         elif kind == "update":
